@@ -148,6 +148,14 @@ def check_molecule(acc, m, tag, bound, opts=OPTS, limit=400, rd_text=None):
             what += knownclass.TAG
         acc.fail('%s :: %s' % (what, d.get('options', '')), mol=tag, **d)
         acc.outcomes['FAIL ' + what] += 1
+    # the canonical text is also reachable through the cached atom order: reading the order first must not change what str() writes
+    try:
+        c0 = m.copy()
+        order0 = list(c0.smiles_atoms_order)
+        acc.states += 1
+        compare_written(acc, m, str(c0), order0, '', lambda what, **d: bad(what, variant='atom order read before str', **d), rd_ref)
+    except Exception as e:
+        bad('smiles_atoms_order / str raised %s' % type(e).__name__, options='')
     for spec in opts:
         acc.states += 1
         text, order = m.__format__(spec, _return_order=True) if spec else m.__format__('', _return_order=True)
@@ -184,7 +192,7 @@ def run_text(shard):
     k, nsh, tier = shard
     acc = Acc()
     rows = [('stereo', s) for s in inputs.ring_stereo_family()]
-    rows += [('special', s) for s in ('C[CH]C |^1:1|', '[CH2]CC[CH2] |^1:0,3|', 'C[O] |^1:1|', '[Na+].[Cl-]', 'CC(=O)[O-].[Na+]', 'c1ccccc1.Cl', '[13CH3]C', '[2H]C([2H])C', 'c1cc[nH]c1', 'c1ccncc1',
+    rows += [('special', s) for s in ('C[CH]C |^1:1|', '[CH2]CC[CH2] |^1:0,3|', 'C[O] |^1:1|', '[Cl] |^1:0|', 'O=[N]=O |^1:1|', 'C[Sn](C)C |^1:1|', '[Na] |^1:0|', '[H] |^1:0|', 'CC(C)(C)[O] |^1:4|', 'C[S] |^1:1|', '[Na+].[Cl-]', 'CC(=O)[O-].[Na+]', 'c1ccccc1.Cl', '[13CH3]C', '[2H]C([2H])C', 'c1cc[nH]c1', 'c1ccncc1',
                                       'C[N+](C)(C)C', 'F[C@](Cl)(Br)I', '[C@H](F)(Cl)Br', 'C[C@]12CC[C@H](CC1)C2', 'CC=[C@]=CC', 'C[C@@H]1CCCC[C@H]1C', 'C/C=C/C=C\\C', 'C/C=C\\1/CCCC1=O', 'C1=C/CCCCCC/1',
                                       'C[C@H]1CC[C@@H](C)CC1', 'OC[C@H]1O[C@H](O)[C@H](O)[C@@H](O)[C@@H]1O', 'C~[Fe]', 'C[C@H](O)CC.C[C@@H](O)CC', 'C[C@]12CCC(=O)C=C1CC[C@@H]1[C@@H]2CC[C@]2(C)[C@@H](O)CC[C@@H]12')]
     rows += [('interdependent', s) for s in inputs.interdependent_family()]
